@@ -3,6 +3,7 @@ import OpusProofs.SilkSymsHistory
 import OpusProofs.SilkSymsLag
 import OpusProofs.CeltSymsHeader
 import OpusProofs.SilkSymsJ2
+import OpusProofs.CeltBandsTotal
 /-
   Property C03 — "decoder output conforms to the RFC 6716 reference decoder", bit-stream half, stage 1:
   the SILK symbol layer.  `Opus.SilkSyms.decodePacket` (OpusModel/SilkSyms.lean) is the frozen normative
@@ -197,6 +198,43 @@ example : (match decodeOpusFrame 1001 1104 1 200 false {}
            | .ok o => (match CeltSyms.hybridHeader 1104 1 960 o.len.toNat o.dec with
                        | .ok hd => decide (hd.coarse.length = 2 ∧ o.evs.length ≥ 3) | _ => false)
            | _ => false) = true := by decide +kernel
+
+open Opus.CeltSyms Opus.CeltBands Opus.CeltBandsProofs in
+/-- Stage 2b, the band data behind the allocation (`OpusModel/CeltBands.lean`: `unquant_fine_energy`, `quant_all_bands`
+    with `quant_band` / `quant_band_stereo` / `quant_partition` / `compute_theta`, the anti-collapse bit,
+    `unquant_energy_finalise`): for ANY allocation result — arbitrary `pulses[]`, `fine_quant[]`, `fine_priority[]`,
+    intensity, dual-stereo, balance, codedBands — any decoder state and arbitrary bytes, the model never raises `fault`:
+    every pulse-cache row it reads lies inside `cache.bits` (`cache.index ≥ 0`, `ci + cache[0]` inside the array; all
+    look-ups of `bits2pulses` / `pulses2bits` / the split test stay within `cache[0 .. cache[0]]`), every `ec_dec_uint`
+    it issues — `qn+1` of the uniform theta PDF, `V(N,K)` of `decode_pulses` — has `2 ≤ ft < 2^32` (no `celt_assert`),
+    and every `V(N,K)` is found inside the `CELT_PVQ_U` table.  The split recursion is structural on `LM+1` (depth ≤ 4);
+    the "never bust the budget" loop is structural on `q`; the time-divide loop on `-tf_change`. -/
+theorem celtBands_no_fault (cfg : CeltCfg) (len : Nat) (h : CeltHdr) (o : Opus.CeltAlloc.Out) (s : BSt)
+    (hl : cfg.LM < 4) (hse : cfg.start ≤ cfg.end_) (he : cfg.end_ ≤ 21) (hs : s.fault = false) :
+    (afterAlloc cfg len h o s).fault = false :=
+  afterAlloc_fault cfg len h o s hl hse he hs
+
+open Opus.CeltSyms Opus.CeltBands Opus.CeltBandsProofs Opus.CeltSymsProofs in
+/-- Totality of the whole CELT frame model `celtFrame` (header, C17's `computeAllocation` driven by the range decoder,
+    band data, final range): from any decoder state satisfying `J` — `ec_dec_init` on arbitrary bytes, or what the SILK
+    layer hands over in a hybrid frame (`celtHdr_hybrid_total_in_range`) — and every legal configuration it returns a
+    frame or `INTERNAL_ERROR` (the `ec_tell(dec) > 8*len` exit), never `.oob` / `.abort`.  The header puts the allocation
+    input inside C17's domain (`allocInp_dom`), so the allocation returns (`alloc_main`); the remaining hypothesis is the
+    CONTRACT on its coder calls that C03 needs from C17's model: at most 63 calls, every `ec_dec_uint` with
+    `2 ≤ ft < 2^32` (`AllocOps`). -/
+theorem celtFrame_total_under_alloc_contract (cfg : CeltCfg) (len : Nat) (c : Dec) (hj : J c) (hl : cfg.LM < 4)
+    (hC : cfg.C = 1 ∨ cfg.C = 2) (hse : cfg.start < cfg.end_) (he : cfg.end_ ≤ 21) (hlen : len ≤ 262144)
+    (hops : ∀ h, celtHeader cfg len c = .ok h → AllocOps (allocInp cfg h)) :
+    (∃ f, celtFrame cfg len c = .ok f) ∨ celtFrame cfg len c = .err .internalError :=
+  celtFrame_total cfg len c hj hl hC hse he hlen hops
+
+/-- non-vacuity: a 10 ms mono wide-band CELT frame of arbitrary bytes runs through allocation, fine energy, the band
+    data with theta splits and PVQ indices, and finalisation, without fault and inside its budget -/
+example : (match CeltBands.celtFrame { start := 0, end_ := 17, C := 1, LM := 2 } 24
+             (decInit [0x5a, 0xc3, 0x17, 0x88, 0x3e, 0xf1, 0x02, 0x9b, 0x64, 0xd5, 0x2c, 0x71, 0xae, 0x0f, 0x93, 0x48,
+                       0x5a, 0xc3, 0x17, 0x88, 0x3e, 0xf1, 0x02, 0x9b] 24) with
+           | .ok f => decide (f.fin.tr.length ≥ 8 ∧ f.alloc.codedBands ≥ 1) && !f.fin.fault | _ => false) = true := by
+  decide +kernel
 
 /-- The frozen tables of the CELT header model (energy probability model, small-energy / trim / spread / tapset ICDFs,
     `tf_select_table`, band edges, allocation caps) equal the tables regenerated from `/repo` on this run. -/
